@@ -3,6 +3,7 @@
 package checks
 
 import (
+	"encoding/binary"
 	"fmt"
 	"math/rand"
 	"os"
@@ -80,6 +81,16 @@ func isoTrees(e *Env, r *rand.Rand, parent string, hostileNames bool) []isoCase 
 	mk("sector-multiples", false, map[string]int64{"a": 2048, "b": 4096, "c": 2047, "d": 2049, "e": 1})
 	mk("empty-dirs", false, map[string]int64{"x/file": 10}, "e1", "e2/e3", "x/empty")
 	mk("single-file", true, map[string]int64{"only.bin": 65537})
+	// PARAM.SFO whose TITLE_ID is stored in the other defined string format (0x0004: UTF-8 without
+	// terminating NUL, length = number of characters): the whole TITLE_ID belongs to the product code
+	mk("sfo-titleid-format-0004", true, map[string]int64{"only.bin": 3000})
+	{
+		sfo := makeSFO(map[string]string{"TITLE": "x", "TITLE_ID": "BCES00104"}, []string{"TITLE", "TITLE_ID"})
+		ent := 20 + 16*1 // second index entry
+		binary.LittleEndian.PutUint16(sfo[ent+2:], 0x0004)
+		binary.LittleEndian.PutUint32(sfo[ent+4:], 9)
+		must(os.WriteFile(filepath.Join(parent, "sfo-titleid-format-0004", "PS3_GAME", "PARAM.SFO"), sfo, 0o644))
+	}
 	// a file and a sibling directory whose names differ only in case (same identifier in the primary
 	// hierarchy apart from the kind): both must be there, the directory with its own children
 	mk("file-dir-case", false, map[string]int64{"name": 5, "NAME/in": 7, "NAME/sub/deep": 2049, "zz": 1})
@@ -308,6 +319,19 @@ func isoCampaign(e *Env, prop string) {
 		}
 		judge(c, "library", memSource(img), int64(len(img)), announced, ents)
 		run.Sig("%s via library", sig)
+		if prop == "C07" && !c.PS3 && len(img) <= 64<<20 && (c.Kind == "random" || c.Kind == "deep" || c.Kind == "wide" || c.Kind == "empty-root" || c.Kind == "shape") {
+			if probs, ran := thirdPartyProblems(e.Scratch, c.Name, img, ents); ran {
+				run.Count("images_decoded_by_bsdtar_too", 1)
+				run.Sig("%s via library, decoded by bsdtar", sig)
+				if len(probs) > 0 {
+					feat := c.Kind
+					if c.Feature != "" {
+						feat += ":" + c.Feature
+					}
+					run.Violate("tree-mismatch-third-party-reader", feat, fmt.Sprintf("[%s via library, ps3=false] libarchive's bsdtar decodes the image differently from the source tree: %s", c.Name, strings.Join(probs, "; ")), map[string]any{"case": c, "problems": probs})
+				}
+			}
+		}
 		// (b) over the network
 		if i%e.Pick(3, 2) == 0 {
 			pre := "/***DVD***"
